@@ -668,6 +668,38 @@ def run(ctx, prog):
     ctx.floor('axis obligations (all families)', n2, 100)
     ctx.floor('accumulating classes', len(us), 23)
     ctx.floor('accumulators discovered', total_acc, 60)
+    # D4 (initial value and compute guard): the count starts at 0 wherever it is bound, and compute() is refused exactly when it is 0
+    counts = {u.count for u in us}
+    for cnt in sorted(counts):
+        consts, other = universe.binding_constants(prog, cnt)
+        k0 = f'{cnt}::initial value'
+        if other:
+            f_, st_ = other[0]
+            ctx.undecided('C01-D4', k0, f'`{norm(st_)[:60]}` binds the count to a value that is not a constant at every call site', f_.where(st_))
+        else:
+            ctx.check(consts == {0}, 'C01-D4', k0, f'the trace count is bound to {sorted(consts, key=str)} before any batch: every mean / normalisation is then taken over a count that is off by that value',
+                      'the trace count starts at 0 wherever it is bound', '')
+    from .c15 import ceval as _ceval, Undecidable as _Und
+    guard_sites = 0
+    for u in us:
+        comp = prog.resolve_method(u.cls, 'compute') if u.compute != 'compute' else prog.resolve_method(u.cls, u.compute)
+        if comp is None or ('guard', comp.key) in _prec_done:
+            continue
+        _prec_done.add(('guard', comp.key))
+        tests = [n.test for n in ast.walk(comp.node) if isinstance(n, ast.Assert) and f'self.{u.count}' in norm(n.test)] + \
+                [n.test for n in ast.walk(comp.node) if isinstance(n, ast.If) and f'self.{u.count}' in norm(n.test) and any(isinstance(b, ast.Raise) for b in n.body)]
+        for t in tests:
+            guard_sites += 1
+            kg = f'{comp.key}::refusal without traces `{norm(t)[:50]}`'
+            is_assert = any(isinstance(n, ast.Assert) and n.test is t for n in ast.walk(comp.node))
+            try:
+                vals = {k: bool(_ceval(t, {f'self.{u.count}': k})) for k in (0, 1, 2, 5)}
+                accept = {k: (v if is_assert else not v) for k, v in vals.items()}
+                ctx.check(accept == {0: False, 1: True, 2: True, 5: True}, 'C01-D4', kg, f'`{norm(t)}` accepts compute() for counts {sorted(k for k, v in accept.items() if v)} out of 0, 1, 2, 5: it must refuse '
+                          f'exactly the empty state (a result after a single trace, or a division by a zero count, otherwise)', 'compute() is refused exactly when no trace was processed', comp.where(t))
+            except _Und as e:
+                ctx.undecided('C01-D4', kg, f'guard not evaluable: {e}', comp.where(t))
+    ctx.floor('compute guards on the trace count', guard_sites, 1)
     # D8: kernels selected per call by timing may each handle some batches of one history: they must be interchangeable
     ctx.rule('C01-D8', 'accumulation kernels selectable at one dispatch site agree on parameters, written parameters and call arguments, and each guards the lookup sentinel before any index use: whichever kernel handles a batch, the contribution is the same')
     from .. import kernelrules as _kr, lut as _lut
